@@ -304,6 +304,7 @@ func capsFromBits(bits int, t *simrt.Tape) simterm.Caps {
 	c.SizePixels = r&32 != 0
 	c.CursorStyleRep = r&64 != 0
 	c.KittyGraphics = r&128 != 0 && t.Draw(2) == 0
+	c.NegTcap = t.Draw(3)
 	switch t.Draw(5) {
 	case 0:
 		c.Name = ""
@@ -352,7 +353,7 @@ func capsString(c simterm.Caps) string {
 	add(c.SizePixels, "14t")
 	add(c.CursorStyleRep, "decrqss")
 	add(c.KittyGraphics, "kitty-graphics")
-	return s + fmt.Sprintf("name=%q base=%d", c.Name, c.Base)
+	return s + fmt.Sprintf("name=%q base=%d negtcap=%d", c.Name, c.Base, c.NegTcap)
 }
 
 // promptReplies answers every query within 0..5 ms.
